@@ -876,6 +876,30 @@ def places_of_term(t):
     return out
 
 
+def attributed(F, accesses, kinds=None, root=False):
+    """def paths of the functions a list of field accesses (from field_accesses) is attributed to. An access inside a function
+    that does not exist on the reference tree (an extracted helper) counts for the helper's callers: allow-lists name the reference
+    tree's functions."""
+    out = set()
+    for b, _, k, _ in accesses:
+        if kinds is not None and k not in kinds:
+            continue
+        out |= owners_of(F, b, root=root)
+    return sorted(out)
+
+
+def owners_of(F, b, root=False, _depth=0):
+    owner = F.fns.get(b.root) if b.kind in ('closure', 'promoted') and b.root in F.fns else b
+    if owner is not None and symex.is_new_helper(owner) and _depth < 4:
+        ups = F.callers_of(owner.defp, collapse_helpers=False)
+        if ups:
+            res = set()
+            for f, _, _ in ups:
+                res |= owners_of(F, f, root=root, _depth=_depth + 1)
+            return res
+    return {(b.root if root else b.defp)}
+
+
 def field_accesses(F, adt, field):
     """every (fn, bb, kind) that mentions field `field` of ADT `adt` in a place projection or aggregate"""
     out = []
